@@ -72,9 +72,12 @@ import (
 	"fmt"
 	"io"
 	"os"
+	"path/filepath"
 	"runtime"
 	"strconv"
+	"strings"
 	"sync"
+	"time"
 
 	"github.com/a-h/templ"
 )
@@ -278,6 +281,42 @@ func main() {
 		}
 		return
 	}
+	// VERIF_MIN_MS=T: every goroutine keeps re-rendering its jobs until T ms have passed; a later
+	// render of a job that differs from its first one is reported in the job's error.
+	// VERIF_TOUCH_MS=k: meanwhile every development text file (templ_*.txt under
+	// TEMPL_DEV_MODE_ROOT) is replaced every k ms by a new file with the same content (temporary
+	// file + rename, so a reader sees one complete file or the other), which is what
+	// "templ generate --watch" does to the file's modification time after an edit.
+	minMs, _ := strconv.Atoi(os.Getenv("VERIF_MIN_MS"))
+	touchMs, _ := strconv.Atoi(os.Getenv("VERIF_TOUCH_MS"))
+	deadline := time.Now().Add(time.Duration(minMs) * time.Millisecond)
+	stopTouch := make(chan struct{})
+	var touchWG sync.WaitGroup
+	if touchMs > 0 && os.Getenv("TEMPL_DEV_MODE_ROOT") != "" {
+		touchWG.Add(1)
+		go func() {
+			defer touchWG.Done()
+			root := os.Getenv("TEMPL_DEV_MODE_ROOT")
+			for k := 0; ; k++ {
+				select {
+				case <-stopTouch:
+					return
+				case <-time.After(time.Duration(touchMs) * time.Millisecond):
+				}
+				names, _ := filepath.Glob(filepath.Join(root, "templ_*.txt"))
+				for _, name := range names {
+					b, err := os.ReadFile(name)
+					if err != nil {
+						continue
+					}
+					tmp := filepath.Join(root, fmt.Sprintf("touch-%d.tmp", k))
+					if os.WriteFile(tmp, b, 0o644) == nil {
+						_ = os.Rename(tmp, name)
+					}
+				}
+			}
+		}()
+	}
 	results := make([]result, len(jobs))
 	var wg sync.WaitGroup
 	for g := 0; g < n; g++ {
@@ -287,9 +326,19 @@ func main() {
 			for i := g; i < len(jobs); i += n {
 				results[i] = runJob(jobs[i], true)
 			}
+			for round := 2; time.Now().Before(deadline); round++ {
+				for i := g; i < len(jobs); i += n {
+					r := runJob(jobs[i], true)
+					if (r.Err != results[i].Err || !bytes.Equal(r.Out, results[i].Out)) && !strings.HasPrefix(results[i].Err, "unstable") {
+						results[i].Err = fmt.Sprintf("unstable: render %d of this job gave %q (error %q), the first gave %q (error %q)", round, r.Out, r.Err, results[i].Out, results[i].Err)
+					}
+				}
+			}
 		}(g)
 	}
 	wg.Wait()
+	close(stopTouch)
+	touchWG.Wait()
 	for _, r := range results {
 		_ = enc.Encode(r)
 	}
